@@ -36,6 +36,9 @@ CHECKS = {
     'C08': dict(tech='one exact TLA+ evaluation (Assembly, physical semantics: rotation = {q,-q}, angle mod 2pi, edges keyed by vertex id) per graph; every representation of it built in the code and compared with that single oracle (binding A)',
                 text='For each lattice graph TLC evaluates chi^2 and the first Gauss-Newton step once; vertex/edge list permutations, id relabellings (negative, sparse, > 2^32), 2*pi*m shifts, sign patterns of vertex / measurement / offset quaternions (all patterns for small graphs in the thorough tier), an edge split into two halves and information scaled by 0.25/3/1000 are built as real graphs and must reproduce that chi^2 (scaled) and that step per vertex.',
                 ref='4 C08', note=L1 + ' One step from lattice states (L2). Half-turn rotational errors and +-pi angular errors are excluded (sign undetermined).'),
+    'C06': dict(tech='(A) TLA+ Assembly reduced system for every fixed subset vs one real step (binding A); (B) GraphSLAM!OptCall frame condition imposed on recorded optimizer runs of 1..20 iterations in every outcome class by Trace_GraphSLAM (binding B)',
+                text='GraphSLAM!OptCall states: the flags after the call are the flags before plus (fix_first_pose and first vertex), and a vertex fixed after the call has the same pose token as before, in every outcome. Recorded calls on fixtures with fixed subsets (none, one, several, all, fixed landmarks, isolated fixed vertex) incl. converged, iteration-limit, diverging and singular (NaN) runs are validated event by event with bitwise pose digests. For the reduced-problem clause TLC assembles the reduced normal equations of lattice graphs for each fixed subset and the real step of the free vertices must equal its exact solution - also when a fixed vertex has no incident edge.',
+                ref='4 C06', note='Digests are SHA-1 of float64 bytes; reduced system solved with Fractions; exact step from lattice states only (L2).'),
 }
 NA_REASON = 'check not built yet in this round (planned, see DESIGN.md section 4)'
 
